@@ -233,7 +233,7 @@ def run(ctx):
         return arith, mm, n
 
     def stage_algo():   # (T) algorithm layer
-        algo = _driver(ctx, drv, "algo", ["-stage", "algo"], 2400 if ctx.thorough else 900)
+        algo = _driver(ctx, drv, "algo", ["-stage", "algo"], 2400 if ctx.thorough else 600)
         mm, n = _validate_heavy(ctx, ALGO, algo)
         ctx.log("algorithm layer: %d events validated, %d mismatches" % (n, len(mm)))
         return algo, mm, n
